@@ -81,7 +81,7 @@ def step (v : Variant) (line : String) : String :=
     | _, _ => "bad-op"
   | ["sp", p] =>
     match fromHex p with
-    | some p => toHex (simplifyPath p)
+    | some p => (match simplifyPathO p with | some r => toHex r | none => "model-out-of-fuel")
     | none => "bad-op"
   | "af" :: p :: n :: rest =>
     match fromHex p, n.toNat? with
@@ -141,7 +141,7 @@ def step (v : Variant) (line : String) : String :=
       let rp := rawPattern sy pat base
       let rx := rawPath sy path base
       let P := canonPattern sy pat base
-      s!"{boolStr (pathMatchSpecB sy (fm m) pat path base)} ok={boolStr (MatchOk v sy (fm m) pat path base)} pc={boolStr (CanonOk v rp.1 rp.2)} xc={boolStr (CanonOk v rx.1 rx.2)} pk={classLetters rp.1 rp.2} xk={classLetters rx.1 rx.2} so={boolStr (v.star || starOkR P.reverse)} ts={boolStr (noTripleStar P)} ds={boolStr (dirSepOk sy (fm m) pat base)} P={toHex P} X={toHex (canonPath sy path base)}"
+      s!"{boolStr (pathMatchSpecB sy (fm m) pat path base)} ok={boolStr (MatchOk v sy (fm m) pat path base)} pc={boolStr (CanonOk v rp.1 rp.2)} xc={boolStr (CanonOk v rx.1 rx.2)} pk={classLetters rp.1 rp.2} xk={classLetters rx.1 rx.2} so={boolStr (v.star || starOkR P.reverse)} ds={boolStr (dirSepOk sy (fm m) pat base)} P={toHex P} X={toHex (canonPath sy path base)}"
     | _, _, _ => "bad-op"
   | ["canon", s, a, b] =>
     match hexN a, hexN b with
